@@ -67,6 +67,7 @@ enum Cmd {
     Pop,
     PanicPop(usize),
     SetGlobal(Dispatch),
+    SetGlobalNone,
     Hit(usize),
     /// an emission made inside a future carrying its own collector (`WithCollector::with_collector`), polled once here: the
     /// scope lasts for the poll
@@ -105,6 +106,12 @@ fn worker(rx: Receiver<Cmd>, tx: Sender<String>) {
                 String::new()
             }
             Cmd::SetGlobal(d) => match tracing_core::dispatch::set_global_default(d) {
+                Ok(()) => "ok".to_string(),
+                Err(_) => "err".to_string(),
+            },
+            // the collector that discards everything, installed through `tracing::collect::set_global_default` (the wrapper that
+            // takes a collector, not a Dispatch)
+            Cmd::SetGlobalNone => match tracing::collect::set_global_default(tracing::collect::NoCollector::default()) {
                 Ok(()) => "ok".to_string(),
                 Err(_) => "err".to_string(),
             },
@@ -226,6 +233,11 @@ fn main() {
             "sg" => {
                 let t: usize = op[1].parse().unwrap(); let c: usize = op[2].parse().unwrap();
                 if let Some(d) = handles.get(&c) { let tt = if t < threads.len() { t } else { 0 }; out.push(call(&threads, tt, Cmd::SetGlobal(d.clone()))); }
+            }
+            "sgn" => {
+                let t: usize = op[1].parse().unwrap();
+                let tt = if t < threads.len() { t } else { 0 };
+                out.push(call(&threads, tt, Cmd::SetGlobalNone));
             }
             "em" | "sp" => {
                 let t: usize = op[1].parse().unwrap(); let i: usize = op[2].parse().unwrap();
